@@ -36,14 +36,22 @@ func init() {
 
 func init() {
 	register("C13", Rule{Name: "E1.rows", Run: runRows("C13")}, Rule{Name: "E1.search", Run: runSearchLoops("Reference")}, Rule{Name: "E7.tokens", Run: runTokenTable},
-		Rule{Name: "E3.alias", Run: runAppendAlias}, Rule{Name: "E2", Run: runE2})
+		Rule{Name: "E3.alias", Run: runAppendAlias}, Rule{Name: "E2", Run: runE2},
+		Rule{Name: "E7.children", Run: runChildCoverage("semanticTokensFor", childExceptions)})
 }
 
 func init() {
-	register("C12", Rule{Name: "E8", Run: runE8}, Rule{Name: "E1.rows", Run: runRows("C12")})
+	register("C12", Rule{Name: "E8", Run: runE8}, Rule{Name: "E1.rows", Run: runRows("C12")}, Rule{Name: "E7.children", Run: runChildCoverage("hover", childExceptions)})
 }
 
 func init() {
 	register("C11", Rule{Name: "E1.rows", Run: runRows("C11")}, Rule{Name: "E6.crossfile", Run: runCrossFile})
 	register("C08", Rule{Name: "E1.rows", Run: runRows("C08")}, Rule{Name: "E6.crossfile", Run: runCrossFile}, Rule{Name: "E1.whomaycall", Run: runWhoMayCall}, Rule{Name: "E7.dispatch", Run: runDispatch})
 }
+
+func init() {
+	register("C10", Rule{Name: "E1.rows", Run: runRows("C10")}, Rule{Name: "E7.capabilities", Run: runCapabilities},
+		Rule{Name: "E7.children", Run: runChildCoverage("refOriginsFor", map[string]string{})}, Rule{Name: "E2", Run: runE2})
+}
+
+var childExceptions = map[string]string{}
